@@ -40,6 +40,20 @@ pub unsafe trait RefCnt: Clone {
     /// The base type the pointer points to.
     type Base;
 
+    /// A small tag (fitting into the two lowest bits, not `0b11`) distinguishing kinds of pointers
+    /// that count *different things* at the same address.
+    ///
+    /// An `Arc<T>` and a `Weak<T>` of one allocation have the same raw pointer, but the first one
+    /// holds the strong and the other the weak count. The borrow slots are matched by the address;
+    /// without telling the two apart a writer replacing the `Weak` in one `ArcSwapWeak` would
+    /// "pay" for a reader that borrowed the `Arc` from an unrelated `ArcSwap` with a weak count
+    /// (and vice versa). The tag is mixed into what the slots hold, never into the pointers
+    /// themselves.
+    ///
+    /// Everything that counts like `Arc` does (one kind of count per address) keeps the default.
+    #[doc(hidden)]
+    const DEBT_TAG: usize = 0;
+
     /// Converts the smart pointer into a raw pointer, without affecting the reference count.
     ///
     /// This can be seen as kind of freezing the pointer ‒ it'll be later converted back using
@@ -160,6 +174,7 @@ unsafe impl<T> RefCnt for Rc<T> {
 
 unsafe impl<T: RefCnt> RefCnt for Option<T> {
     type Base = T::Base;
+    const DEBT_TAG: usize = T::DEBT_TAG;
     fn into_ptr(me: Option<T>) -> *mut T::Base {
         me.map(T::into_ptr).unwrap_or_else(ptr::null_mut)
     }
